@@ -22,16 +22,21 @@ func main() {
 		pureWorker(c)
 		c.Finish()
 	}
-	c.SetRule("one scenario = one database with its own retention policy (shard duration 1 h unless stated) on a real ts-server with [retention] check-interval=1s; " +
+	c.SetRule("one scenario = one database with its own retention policy (shard duration 1 h unless stated) on a real ts-server with [retention] check-interval=1s and 2 partitions (so every group also has a shard the engine never created); " +
 		"timestamps are placed relative to the harness clock so that the expiry instant X = groupEnd + duration of the group holding the test point lies at a seed-chosen offset " +
-		"(+20..30 s, +90 s, +3 h, in the past after ALTER, never for duration 0), the policy is altered per kind, and every query / SHOW SHARDS / data-directory listing is bracketed by clock readings t0<t1. " +
-		"Judged: present if t1+2s < E (earliest instant any duration that was or may have been in force allows deletion), absent if t0 > Z (3 completed retention cycles, read from the server log, that all started > 2 s after expiry under a duration certainly in force). " +
-		"A scenario is distinct by (kind, delta, position of the point in its group, alteration) and non-trivial if its designed obligations were actually judged: kinds that expire need >=1 judged-present and >=1 judged-absent observation, kinds that keep need >=1 judged-present observation after >=3 completed retention cycles")
+		"(+20..30 s, +90 s, +3 h, in the past or +25 s after ALTER, never for duration 0), the policy is altered per kind, and every query / SHOW SHARDS / data-directory listing is bracketed by clock readings t0<t1. " +
+		"Judged: present if t1+2s < E (earliest instant at which any duration that was or may have been in force allows deletion), absent if t0 > Z (3 completed retention cycles, read from the server log, that all started > 2 s after expiry under a duration certainly in force; " +
+		"for SHOW SHARDS additionally only after a catalogue change of the harness's own was acknowledged later than Z). Everything between E-2s and Z is counted as unjudged. " +
+		"A scenario is distinct by kind and the parameters that matter for the kind (delta, position of the point in its group, alteration target) and non-trivial if its designed obligations were actually judged: " +
+		"kinds that expire need >=1 judged-present and >=1 judged-absent query observation (lazy kinds, silent before expiry by design, >=1 judged-absent), kinds that keep need >=1 judged-present observation after >=3 completed retention cycles. " +
+		"Pure part: engine.NewShard objects with generated (group end, duration), IsExpired() bracketed the same way")
 	c.Assume("harness and server read the same system clock (same host); the clock is not stepped during a run")
 	c.Assume("the timestamp of a server log line is taken before the line's retention cycle refreshes durations and reads its clock (start line) respectively after all its deletions returned (end line)")
-	c.Assume("shard group boundaries are multiples of the shard duration counted from Go's zero time (time.Truncate); cross-checked against SHOW SHARDS in every run")
-	c.Assume("a statement that returned an error was not applied; a write is part of the model only after HTTP 204")
-	c.Assume("a point counts as established once any point of the same series and shard group has been returned by a completed query (index visibility lag is outside this property)")
+	c.Assume("shard group boundaries are multiples of the shard duration counted from Go's zero time (time.Truncate); cross-checked against SHOW SHARDS in every run (mismatch = broken)")
+	c.Assume("a statement that returned an error was not applied; a write is part of the model only after HTTP 204; a transport error ends the judging of that scenario")
+	c.Assume("a point is under the present-obligation once any point of the same series and shard group has been returned by a completed query (index visibility lag is outside this property)")
+	c.Assume("what retention removes never comes back: a missing point that a later observation returns again is not charged to retention (counted as inconclusive transient-read-miss)")
+	c.Assume("a catalogue statement acknowledged to the harness is ordered after every catalogue change that completed before it was sent (used as barrier before SHOW SHARDS absent-judgements)")
 
 	if c.ReplayIn != "" {
 		replay(c)
@@ -65,8 +70,25 @@ func main() {
 		}
 	}
 	wg.Wait()
+	if os.Getenv("VERIF_C14_ONLY") == "" && c.Violations() == 0 {
+		// categories the design requires
+		for _, k := range []string{"expire", "expire-later", "far", "lowered", "lowered-soon", "unlimited", "raise-before", "raise-after", "equal", "refused", "writer",
+			"lazy-expire", "lazy-keep", "lazy-lowered", "lazy-unlimited", "lazy-raise", "storm"} {
+			if !judgedKinds[k] {
+				c.Inconclusive("category-not-reached:"+k, 1)
+			}
+		}
+		if !notLoadedSeen {
+			c.Inconclusive("category-not-reached:shard-not-loaded-while-cycles-ran", 1)
+		}
+	}
 	c.Finish()
 }
+
+var (
+	judgedKinds   = map[string]bool{}
+	notLoadedSeen bool
+)
 
 // runRound runs the scenarios a on a normally loading server and b on a server that is
 // restarted with lazy shard loading between writing and expiry; both at the same time.
@@ -229,13 +251,16 @@ func conclude(c *vf.Ctx, w *world) {
 		switch {
 		case expires && r.PresentData > 0 && r.AbsentData > 0:
 			c.Nontrivial(caseKey(sc.Spec))
+			markJudged(sc.Spec.Kind)
 			c.Distinct("judged-both-sides-of-expiry", sc.Spec.Kind)
 		case !expires && r.PresentData > 0 && r.KeptThroughCycles >= 3:
 			c.Nontrivial(caseKey(sc.Spec))
+			markJudged(sc.Spec.Kind)
 			c.Distinct("kept-through-cycles", sc.Spec.Kind)
 		case expires && sc.Spec.Lazy && r.AbsentData > 0:
 			// lazy scenarios stay silent before expiry by design (a query would load the shard)
 			c.Nontrivial(caseKey(sc.Spec))
+			markJudged(sc.Spec.Kind)
 			c.Distinct("judged-absent-after-silent-expiry", sc.Spec.Kind)
 		default:
 			c.Inconclusive("scenario-obligations-not-judged:"+sc.Spec.Kind, 1)
@@ -364,4 +389,10 @@ func caseKey(sp spec) string {
 		k = "storm"
 	}
 	return k
+}
+
+func markJudged(kind string) {
+	scenMu.Lock()
+	judgedKinds[kind] = true
+	scenMu.Unlock()
 }
